@@ -20,12 +20,25 @@ header name, unsupported major version - each also rejected by the strict refere
   R5  tick() never raises (nothing escapes the loop) and the canary on a fresh connection is served with the handler's 200 response;
   R6  once `disconnect` was seen for a socket, no container reachable from the HTTP component, the socket server or the poller holds it
       (generic walk; the path found is part of the key).
+  R7  "or simply closes (TLS handshake on a plain-text port)": a connection the server closes without having written a byte for the message,
+      while the peer is still there (it neither closed nor half-closed) and what the peer sent does not begin like a TLS / SSL record
+      (first byte 0x16 or >= 0x80 after any empty lines - generous on purpose), is neither waiting nor an answer.
 Keys carry what is needed to tell root causes apart: the operator for R1/R2/R4, the status class and whether the HTTP layer saw the
 message in one read event or in several for R2/R3 (answers to bytes that arrive after an error answer was decided are one known root
-cause; two answers to bytes that arrived in ONE read would be another), the table path for R6.
+cause; two answers to bytes that arrived in ONE read would be another), the table path for R6; for R7 whether the server had set out to
+answer (a `response` event was fired but nothing could be written: `response-not-written`) or not (then one-read / several-reads).
 Avoidance (ctx.avoid): a key that ends in an operator name removes that operator from the generator; a residue key of the HTTP component
 removes that path from the walk (other paths are still found), one of the socket server / poller switches the walk over those two off;
-a response-after-close key makes the judge look only at what was written up to the announcing answer.
+a response-after-close key makes the judge look only at what was written up to the announcing answer; the key
+closed-without-response/response-not-written removes the header values that make every answer unwritable (escapes the server decodes
+into characters outside latin-1 inside the Cookie it echoes) from the generator.
+
+Bytes with the high bit set (operator non-ascii, arrival mode `before a high byte`).  The server looks at the beginning of a read to
+tell a TLS / SSL hello from a request, so where the reads begin matters as much as what is sent: the operator puts latin-1 / UTF-8 text
+into a header value, a header name, the path, the query or a cookie of an otherwise well-formed request ("bad header", "bad request
+line" of the quantifier; `either`: obs-text in a value is tolerated by RFC 7230, elsewhere a server may reject it), and one arrival mode
+ends a piece right before such a byte, so that - like with 1-byte short reads and the cut at every offset - a later read of the same
+message begins with it ("truncation at every offset").  R7 then demands what the statement says: the message is waited for or answered.
 
 Reflected request headers (operator hdr-reflected-ctl).  Two request headers come back in answers: every response built from a request
 echoes the request's cookies as Set-Cookie (the handler's 200, the 400 for a missing Host, the 505, the 301), and the redirect that
@@ -64,7 +77,8 @@ LEVEL_NOTE = ('trusted: the labels of the mutation operators (cross-checked in e
               'parser with http.client as second opinion, the interposer\'s record of bytes written and of close(); the reachability walk '
               'looks into dict / list / set / deque / tuple containers and Request / Response / parser objects reachable from the three components')
 RULE = ('each run = 1-3 connections, each with 0-1 well-formed keep-alive requests, then one mutated message (operator, truncation, pieces, read size) '
-        'and an end action at a drawn point; interleaving drawn; then canary, then everything closes. non-trivial = at least one byte of a mutated '
+        'and an end action at a drawn point (pieces: whole / random cuts / around line ends / fixed stride / every offset / right before a byte >= 0x80); '
+        'interleaving drawn; then canary, then everything closes. non-trivial = at least one byte of a mutated '
         'message reached the server, at least one connection disconnected and the canary ran; distinct = digest of all bytes sent, actions and outcomes')
 STATE_MEASURE = '(mutation operator, outcome class of the connection, end action, message complete or truncated, number of connections)'
 REAL = ['circuits.web.servers.BaseServer', 'circuits.web.http.HTTP', 'circuits.web.parsers.http.HttpParser', 'circuits.web.wrappers.Request/Response',
@@ -73,7 +87,11 @@ STUBBED = ['socket -> SimSocket over AF_UNIX', 'select module -> non-blocking sh
            'circuits.web.servers.stderr -> sink']
 ASSUMPTIONS = ['"retained state" is read as: the socket object is reachable from a container of the HTTP component, the socket server or the poller (the latter two '
                'are reported under their own keys; they overlap with C12)',
-               'a response that announces close must be followed by the server closing; a close without announcement is accepted ("simply closes")',
+               'a response that announces close must be followed by the server closing; a close after an answer that did not announce it is accepted',
+               '"simply closes (TLS handshake on a plain-text port)": a close without any response is accepted whenever what the peer sent begins - after '
+               'any empty lines - with 0x16 or a byte >= 0x80 (which covers every TLS handshake record and SSLv2 hello and a lot of other binary input), '
+               'whenever the peer closed, half-closed or aborted first, and whenever part of a response was written; it is judged only at quiescence on '
+               'connections whose peer is still there and only if at least one byte of the mutated message was sent',
                'an error answer with status 500 after a request event is not counted as "dispatching a rejected message" (only 4xx and 505 are rejections)',
                'operators that disturb message framing are not required to produce at most one response (a lenient server may see two messages)',
                'well-formed chunked bodies are not used as mutation bases (how they survive segmentation is C13\'s subject); HEAD is not used',
@@ -87,7 +105,9 @@ PROBES = ['fault:short_read', 'fault:piecewise_arrival', 'fault:truncation', 'fa
           'prefix-request', 'outcome:wait', 'outcome:2xx', 'outcome:4xx', 'outcome:5xx', 'outcome:closed-silently', 'canary-ok', 'disconnect-mid-message',
           'must-reject-op', 'request-event', 'label-checked', 'same-connection-follow-up',
           'reflected-ctl:cookie-value', 'reflected-ctl:cookie-name', 'reflected-ctl:host', 'reflected-ctl:escaped', 'reflected-ctl:raw',
-          'reflected-header-written', 'cl-negative']
+          'reflected-header-written', 'cl-negative',
+          'non-ascii', 'non-ascii:header-value', 'non-ascii:header-name', 'non-ascii:path', 'non-ascii:query', 'non-ascii:cookie',
+          'piece-starts-with-high-byte', 'continuation-read-starts-with-high-byte', 'silent-close-of-tls-like-input']
 TIERS = {
     'quick': dict(runs=90000, wall=33, chunk=100, cfg=dict(max_conns=3, big=1)),
     'thorough': dict(runs=1500000, wall=600, chunk=400, cfg=dict(max_conns=3, big=4)),
@@ -224,11 +244,11 @@ def op_hdr_nul_name(ch, fl, lines, body):
     return fl, lines, body
 
 
-def op_hdr_odd_field(ch, fl, lines, body):
+def op_hdr_odd_field(ch, fl, lines, body, latin1_only=False):
     l = ch.choice([b'X-A: a\x00b', b'X-A : 1', b': value', b'X-H: caf\xe9', b'X-E: \\x', b'X-E: \\', b'X-E: \\N{', b'X-E\\x: 1', b'X-CR: a\rb', b'X(A): 1', b'X-A: \x7f\x01',
                    b'X-A:', b':', b'X-E: \\u00e9\\U0001F600', b'Cookie: \x00=;;;,', b'Cookie: a b c=d; =; "', b'Content-Type: ;;;=', b'Accept: ,;q=x,', b'Connection: \\x',
                    # escapes the parser's unicode_escape decoding turns into characters outside latin-1, in the one header the response echoes
-                   b'Cookie: a="\\u20ac"', b'Cookie: k=\\u0100; j=1', b'Cookie: \\N{BULLET}=1'],
+                   b'Cookie: a="\\u20ac"', b'Cookie: k=\\u0100; j=1', b'Cookie: \\N{BULLET}=1'][:-3 if latin1_only else None],
                   'odd-field')
     lines.insert(ch.draw(len(lines) + 1, 'pos'), l)
     return fl, lines, body
@@ -379,6 +399,34 @@ def op_binary(ch, fl, lines, body):
     return bytes(out)
 
 
+# text outside ASCII as it turns up in names, search terms and cookies: latin-1, UTF-8, a byte-order mark, lone high bytes
+NON_ASCII = [b'caf\xe9 cr\xe8me', b'\xc3\xa9t\xc3\xa9', b'\xe9', b'\xe2\x82\xac 5', b'\xff\xfe', b'na\xefve', b'\x80', b'\xa0\xa0', b'\xf0\x9f\x98\x80',
+             b'M\xfcnchen', b'\xd0\x9c\xd0\xb8\xd1\x80']
+
+
+def op_non_ascii(ch, fl, lines, body, tags=None):
+    """bytes >= 0x80 (obs-text: tolerated in field values by RFC 7230, not allowed in a name or a target - a server may take or reject either)
+    in one place of an otherwise well-formed request: a header value, a header name, the path, the query, a cookie value.  Together with
+    the arrival in pieces this is what puts a byte with the high bit set at the start of a read in the middle of the header section."""
+    txt = ch.choice(NON_ASCII, 'non-ascii-text')
+    where = ch.draw(5, 'non-ascii-in')
+    if tags is not None:
+        tags.append('non-ascii:' + ['header-value', 'header-name', 'path', 'query', 'cookie'][where])
+    if where == 0:
+        lines.insert(ch.draw(len(lines) + 1, 'pos'), ch.choice([b'X-Name: ', b'User-Agent: ', b'X-Name:'], 'value-of') + txt)
+    elif where == 1:
+        lines.insert(ch.draw(len(lines) + 1, 'pos'), b'X-' + txt.replace(b' ', b'-') + b': 1')
+    elif where == 2:
+        fl = _target(fl, b'/' + txt.replace(b' ', b'%20'))
+    elif where == 3:
+        a, b, c = fl.split(b' ', 2)
+        fl = b' '.join((a, b + (b'&' if b'?' in b else b'?') + b'q=' + txt.replace(b' ', b'+'), c))
+    else:
+        lines = [l for l in lines if not l.lower().startswith(b'cookie:')]
+        lines.insert(ch.draw(len(lines) + 1, 'pos'), b'Cookie: n=' + txt.replace(b' ', b'_'))
+    return fl, lines, body
+
+
 # name, weight, must-reject, single, framing the base request needs, function
 OPS = [
     ('valid', 2, False, True, None, op_valid),
@@ -412,12 +460,14 @@ OPS = [
     # (appended, so that the operator indices recorded in older replay tapes keep their meaning)
     ('hdr-reflected-ctl', 5, False, True, None, op_hdr_reflected_ctl),
     ('cl-negative', 3, True, True, 'clen', op_cl_negative),
+    ('non-ascii', 5, False, True, None, op_non_ascii),
 ]
 OPNAMES = [o[0] for o in OPS]
 
 
-def mutated(ch, cfg, avoid_ops=frozenset(), tags=None):
-    """(op name, must_reject, single, bytes); `tags`: list that receives the reach-probe names of the shape an operator drew"""
+def mutated(ch, cfg, avoid_ops=frozenset(), tags=None, latin1_only=False):
+    """(op name, must_reject, single, bytes); `tags`: list that receives the reach-probe names of the shape an operator drew;
+    `latin1_only`: no escape that the server decodes into a character outside latin-1 in the header its answers echo (Cookie)"""
     weights = [0 if o[0] in avoid_ops else o[1] for o in OPS]
     name, _, must, single, framing, fn = OPS[ch.weighted(weights, 'op')]
     if framing is None:
@@ -430,7 +480,9 @@ def mutated(ch, cfg, avoid_ops=frozenset(), tags=None):
     lines = text.split(b'\r\n')[:-1] if text else []
     if fn in (op_reqline_long, op_hdr_oversized, op_hdr_many):
         r = fn(ch, raw[:i], lines, raw[j:], cfg.get('big', 1))
-    elif fn is op_hdr_reflected_ctl:
+    elif fn is op_hdr_odd_field:
+        r = fn(ch, raw[:i], lines, raw[j:], latin1_only)
+    elif fn in (op_hdr_reflected_ctl, op_non_ascii):
         r = fn(ch, raw[:i], lines, raw[j:], tags)
     else:
         r = fn(ch, raw[:i], lines, raw[j:])
@@ -458,8 +510,13 @@ def pieces_for(ch, raw):
     n = len(raw)
     if n < 2:
         return [raw] if raw else []
-    k = ch.weighted([3, 3, 3, 1, 1], 'arrival')
-    if k == 0:
+    highs = [i for i in range(1, min(n, 4000)) if raw[i] >= 0x80 and raw[i - 1] < 0x80]
+    k = ch.weighted([3, 3, 3, 1, 1, 3 if highs else 0], 'arrival')
+    if k == 5:
+        # a piece ends right before a byte with the high bit set (a multi-byte character, a latin-1 letter, binary data), so that the next
+        # read begins with it; sometimes one more cut anywhere
+        cuts = sorted({ch.choice(highs, 'high') for _ in range(ch.randint(1, 2, 'ncuts'))} | ({1 + ch.draw(n - 1, 'cut')} if ch.chance(1, 3, 'one-more') else set()))
+    elif k == 0:
         cuts = []
     elif k == 1:
         cuts = sorted({1 + ch.draw(n - 1, 'cut') for _ in range(ch.randint(1, 4, 'ncuts'))})
@@ -476,6 +533,14 @@ def pieces_for(ch, raw):
         out.append(raw[last:c])
         last = c
     return out
+
+
+def looks_like_tls(sent):
+    """does what the peer sent begin like a TLS / SSL record?  Generous on purpose: after any empty lines (a server may skip them before a request
+    line) the first byte is 0x16 (TLS record of type handshake, whatever version follows) or has the high bit set (SSLv2 record header in
+    its two-byte form, the only thing an SSLv2 hello can start with; any length).  Nothing that starts like text does."""
+    sent = sent.lstrip(b'\r\n')
+    return bool(sent) and (sent[0] == 0x16 or sent[0] >= 0x80)
 
 
 class ReadCap(simnet.NoFaults):
@@ -559,6 +624,8 @@ class Conn:
         self.requests = 0
         self.reads = 0              # read events seen by the HTTP layer for this connection
         self.reads_before = 0       # ... of which before the mutated message
+        self.responses = 0          # response events fired for this connection (the server set out to answer)
+        self.responses_before = 0   # ... of which before the mutated message
         self.disconnects = 0
         self.truncated = False
         self.reading = True
@@ -616,6 +683,14 @@ def _run(ctx):
             c = by_addr.get(sock.sim_peer)
             if c is not None:
                 c.reads += 1
+                if c.reads - c.reads_before > 1 and data[:1] >= b'\x80' and c.sent_mut:
+                    ctx.stat('continuation-read-starts-with-high-byte')
+
+        def response(self, res):
+            sk = getattr(res.request, 'sock', None)
+            c = by_addr.get(sk.sim_peer) if sk is not None else None
+            if c is not None:
+                c.responses += 1
 
         def disconnect(self, sock):
             c = by_addr.get(sock.sim_peer)
@@ -701,14 +776,16 @@ def _run(ctx):
             c.steps.append(('prefix', pre.raw))
             c.nprefix = 1
         tags = []
-        c.op, c.must, c.single, c.raw = mutated(ch, cfg, avoid_ops, tags)
-        for t in tags + (['cl-negative'] if c.op == 'cl-negative' else []):
+        c.op, c.must, c.single, c.raw = mutated(ch, cfg, avoid_ops, tags, 'C14/closed-without-response/response-not-written' in ctx.avoid)
+        for t in tags + ([c.op] if c.op in ('cl-negative', 'non-ascii') else []):
             ctx.stat(t)
         check_label(c.op, c.must, c.raw)
         ctx.stat('label-checked')
         if c.must:
             ctx.stat('must-reject-op')
         pcs = pieces_for(ch, c.raw)
+        if any(pc[:1] >= b'\x80' for pc in pcs[1:]):
+            ctx.stat('piece-starts-with-high-byte')
         c.end = ['keep', 'close', 'half', 'abort'][ch.weighted([3, 3, 1, 2], 'end')]
         # the end action happens after piece number `at` (drawn: half of the time after the last one) -> truncation at a drawn offset
         at = len(pcs) if ch.draw(2, 'end-early') == 0 else ch.draw(len(pcs) + 1, 'end-at')
@@ -743,7 +820,7 @@ def _run(ctx):
             quiesce()
             rs, rest, err = G.parse_responses(bytes(c.peer.inp[before:]))
             c.prefix_ok = len(rs) == 1 and not rest and not err and rs[0].first[1] == 200 and not c.peer.eof
-            c.reads_before = c.reads
+            c.reads_before, c.responses_before = c.reads, c.responses
             ctx.trace('  conn %d: well-formed request first (%d bytes) -> %s' % (c.idx, len(s[1]), 'served' if c.prefix_ok else 'NOT served as expected'))
             if not c.prefix_ok:
                 c.steps = [x for x in c.steps if x[0] == 'end']     # not this property's business; just finish the connection
@@ -909,6 +986,23 @@ def _judge(ctx, c, fail):
     ctx.log('judge', c.idx, c.op, tuple(statuses), nreq, server_closed)
     ctx.trace('  conn %d: server wrote %s, dispatched %d request event(s) for the mutated message, %s' % (
         c.idx, statuses or 'nothing', nreq, 'closed the connection' if server_closed else 'keeps it open'))
+    # R7: "or simply closes (TLS handshake on a plain-text port)": the third way out is there for input that is a TLS / SSL record.  The server
+    #     closed without having written a byte for this message although the peer is still there (it neither closed nor half-closed, so the
+    #     close is the server's own decision) and what it was sent does not begin like such a record (see looks_like_tls): it neither waited
+    #     nor answered.  Only the start of the message is looked at - that is where a handshake is - and any byte >= 0x80 or 0x16 there excuses.
+    if out == 'closed-silently' and c.sent_mut and not rest:
+        if looks_like_tls(c.raw[:c.sent_mut]):
+            ctx.stat('silent-close-of-tls-like-input')
+        else:
+            # two root causes apart: the server set out to answer (a response event was fired) but nothing could be written, or it never did
+            gave_up = c.responses > c.responses_before
+            key = 'C14/closed-without-response/%s' % ('response-not-written' if gave_up else shape)
+            fail(key, 'connection %d (operator %s, %d read event(s)): the peer sent %d byte(s) that do not begin like a TLS/SSL record and is still there, yet the '
+                 'server closed the connection without writing any response (%s): %s' % (
+                     c.idx, c.op, c.reads - c.reads_before, c.sent_mut,
+                     '%d response event(s) were fired, none was written' % (c.responses - c.responses_before) if gave_up else 'no response event was fired either',
+                     _short(c.raw[:c.sent_mut], 200)))
+            return
     # R3: "closing the connection when the response says so"
     masked = frozenset(k for k in ctx.avoid if k.startswith('C14/response-after-close/'))
     for k, r in enumerate(rs):
